@@ -4,15 +4,41 @@ import "verif/internal/eng"
 
 func init() {
 	register(&Property{
+		ID: "C04",
+		Explanation: "Decides: (fresh-nonce) every call of (*crypto.Key).Seal in the program takes a nonce that originates solely from a crypto.NewRandomNonce() call in the same function, that call feeds exactly one Seal, and the Seal cannot be re-executed without a new nonce call; (rng) NewRandomNonce/NewRandomKey/NewSalt fill the returned buffer from crypto/rand.Read and a short or failed read cannot reach a return; (ciphertext-only) everything added to a pack, written to the pack file, handed to the backend for unpacked files and stored in Key.Data originates from Seal output, and key files serialise only the informational fields; (backend-save-callers) Backend.Save is called only from the classified savers in package repository and from wrappers forwarding their own handle. Not decided: secrecy of AES-CTR output, compression side channels, pack-size leakage.",
+		Assumptions: append([]string{"crypto/rand.Read returns unpredictable bytes"}, commonAssumptions...),
+		Technique:   "static analysis: call-site enumeration + backward value-origin slice (go/ssa)",
+		AllConfigs:  true,
+		Run: func(c *eng.Ctx) {
+			ruleFreshNonce(c)
+			ruleRNG(c)
+			ruleCiphertextOnly(c)
+			ruleBackendSaveCallers(c)
+		},
+		Controls: []Control{
+			{Name: "reuse-nonce-for-header", File: "internal/repository/pack/pack.go",
+				Old: "encryptedHeader = p.k.Seal(encryptedHeader, nonce, header, nil)", New: "encryptedHeader = p.k.Seal(encryptedHeader, encryptedHeader[:16], header, nil)", Rule: "fresh-nonce"},
+			{Name: "save-plaintext-blob", File: "internal/repository/repository.go",
+				Old: "return pm.SaveBlob(ctx, t, id, ciphertext, uncompressedLength)", New: "return pm.SaveBlob(ctx, t, id, data, uncompressedLength)", Rule: "ciphertext-only"},
+		},
+	})
+	register(&Property{
 		ID: "C05",
 		Explanation: "Decides the guard clauses of the statement, not the cryptographic round trip: in (*crypto.Key).Open the AES-CTR keystream is applied, and a nil error returned, only on the true branch of poly1305Verify; the ciphertext is sliced only after the length >= Overhead() check; Seal reaches XORKeyStream only through k.Valid(), len(nonce)==ivSize and validNonce(nonce) and returns only after encrypting (rejections panic); KDF calls scrypt only after the salt-length and params.Check() guards; Extension == ivSize+macSize. Not decided: plaintext equality after a round trip and rejection of every bit flip (properties of AES-CTR/Poly1305 themselves).",
-		Assumptions: []string{"crypto/aes, crypto/cipher, poly1305 and scrypt implement their specifications", "go/ssa and go/types model the program faithfully"},
+		Assumptions: append([]string{"crypto/aes, crypto/cipher, poly1305 and scrypt implement their specifications"}, commonAssumptions...),
+		Technique:   "static analysis: CFG edge-cut reachability (must-pass-through) on go/ssa + constant evaluation",
 		Run: func(c *eng.Ctx) {
 			ruleMacBeforeDecrypt(c)
 			ruleSealGuards(c)
 			ruleOpenGuards(c)
 			ruleKDFGuards(c)
 			ruleCryptoConsts(c)
+		},
+		Controls: []Control{
+			{Name: "decrypt-before-verify", File: "internal/repository/crypto/crypto.go",
+				Old: "	if !poly1305Verify(ct, nonce, &k.MACKey, mac) {\n		return nil, ErrUnauthenticated\n	}\n", New: "	if !poly1305Verify(ct, nonce, &k.MACKey, mac) && len(dst) > 0 {\n		return nil, ErrUnauthenticated\n	}\n", Rule: "mac-before-decrypt"},
+			{Name: "seal-accepts-zero-nonce", File: "internal/repository/crypto/crypto.go",
+				Old: "	if !validNonce(nonce) {\n		panic(\"nonce is invalid\")\n	}\n", New: "", Rule: "seal-guards"},
 		},
 	})
 }
